@@ -90,11 +90,16 @@ type AuthSpec struct {
 	FailErr  *ErrSpec `json:"fail_err,omitempty"`
 	// FailTrue: the failing validator returns (ctx, true, err): an error is a failure whatever the boolean says
 	FailTrue bool `json:"fail_true,omitempty"`
+	// PanicPass: the validator panics when it is handed this password (non-empty): no session either
+	PanicPass string `json:"panic_pass,omitempty"`
 	// PerUser: every user is known, with the password Pass + ":" + user name
 	PerUser bool `json:"per_user,omitempty"`
 }
 
 func (a *AuthSpec) Verdict(user, pass string) string {
+	if a.PanicPass != "" && pass == a.PanicPass {
+		return "panic"
+	}
 	if a.FailErr != nil && pass == a.FailPass {
 		return "fail"
 	}
@@ -236,15 +241,16 @@ type Env struct {
 	L     *memnet.Listener
 	Srv   *wire.Server
 
-	mu       sync.Mutex
-	trace    []Event
-	conns    map[string]*memnet.Conn
-	retained []Retained
-	ctxs     []capturedCtx
-	gates    map[string]chan struct{}
-	cancels  map[int][]context.CancelFunc
-	plans    map[string]wire.PreparedStatements
-	panics   []PanicRec
+	mu         sync.Mutex
+	trace      []Event
+	conns      map[string]*memnet.Conn
+	retained   []Retained
+	ctxs       []capturedCtx
+	gates      map[string]chan struct{}
+	cancels    map[int][]context.CancelFunc
+	plans      map[string]wire.PreparedStatements
+	closeHooks int
+	panics     []PanicRec
 
 	serveDone   chan error
 	stopOnce    sync.Once
@@ -268,6 +274,12 @@ func installHooks() {
 	hookOnce.Do(func() {
 		wire.SetVerifHooks(&wire.VerifHooks{
 			Panic: func(v any, stack []byte) {
+				if _, ok := v.(ValidatorPanic); ok {
+					// the password validator of the case panicked on purpose; that the connection goroutine
+					// dies of it is what the library does today and not what any property is about. (The
+					// hook runs after the connection was closed, possibly when the next case has begun.)
+					return
+				}
 				curMu.Lock()
 				e := curEnv
 				curMu.Unlock()
@@ -393,6 +405,20 @@ func Start(cfg Config) *Env {
 	if cfg.Term != nil {
 		opts0 = append(opts0, opt{fn: wire.TerminateConn(e.terminate)})
 	}
+	// a connection-close hook is always configured (the pinned library accepts the option and never
+	// calls the hook; a library that does must hand it a usable context): it only uses the library's
+	// own context accessors and records nothing
+	opts0 = append(opts0, opt{fn: wire.CloseConn(func(ctx context.Context) error {
+		_ = wire.RemoteAddress(ctx)
+		_ = wire.ClientParameters(ctx)
+		_ = wire.ServerParameters(ctx)
+		_ = wire.AuthenticatedUsername(ctx)
+		_ = wire.TypeMap(ctx)
+		e.mu.Lock()
+		e.closeHooks++
+		e.mu.Unlock()
+		return nil
+	})})
 	if cfg.CustomCaches {
 		// user supplied cache factories (thin wrappers around the default caches, implementing the optional closers too)
 		opts0 = append(opts0, opt{fn: wire.Statements(func() wire.StatementCache {
@@ -762,6 +788,10 @@ func (e *Env) validate(ctx context.Context, database, username, password string)
 	e.retainStr(ctx, "username", username)
 	a := e.Cfg.Auth
 	switch a.Verdict(username, password) {
+	case "panic":
+		ev.OpK = "panic"
+		e.add(ev)
+		panic(ValidatorPanic{})
 	case "fail":
 		err := a.FailErr.Build()
 		errFields(&ev, err)
@@ -824,7 +854,8 @@ func (e *Env) CancelSession(conn int) {
 }
 
 func (e *Env) terminate(ctx context.Context) error {
-	ev := Event{Conn: connID(ctx), K: "terminate", Ctx: e.observe(ctx, false)}
+	// (the hook runs inside the Terminate command: its context is a per-command context like any other)
+	ev := Event{Conn: connID(ctx), K: "terminate", Ctx: e.observe(ctx, true)}
 	var err error
 	if e.Cfg.Term != nil && e.Cfg.Term.Fail != nil {
 		err = e.Cfg.Term.Fail.Build()
@@ -957,6 +988,11 @@ func (e *Env) stmtFn(query string, idx int, st Stmt) wire.PreparedStatementFn {
 		return ret
 	}
 }
+
+// ValidatorPanic is the value a password validator panics with (AuthSpec.PanicPass).
+type ValidatorPanic struct{}
+
+func (ValidatorPanic) String() string { return "verif: password validator panics" }
 
 // DeliberatePanic is the value the "panic" operation panics with.
 type DeliberatePanic struct{}
